@@ -89,7 +89,9 @@ func de(name string, t Val) dent { return dent{[]byte(name), t, true} }
 var c17Benign = []string{"a", "b", "c", "d", "e", "x", "ld", "rel", "dang", "loop", "in", "unknown", "inner", "keep", "sib", "out", "target"}
 var c17Hostile = []string{"..", ".", "", "a/b", "d/inner", "d/x", "d/new", "x/y", "ld/keep", "ld/new", "/abs", c17Outside + "/target",
 	c17Outside + "/new2", "../sib", "../new3", "../../outside/target", "../../outside/new4", "d/../../sib", "a//b", "a/", "/", "./a", "a/.",
-	"a/..", "d/..", "a\x00b", "\xc3\xbc", "a b", "-r", "a\nb", "..a", "...", "in/inner", "in/new5", "dd/sib", "dd/new6", "ld/n1/n2", "x/n1/n2", "dd/w/new7/new8", "d/n1/n2"}
+	"a/..", "d/..", "a\x00b", "\xc3\xbc", "a b", "-r", "a\nb", "..a", "...", "in/inner", "in/new5", "dd/sib", "dd/new6", "ld/n1/n2", "x/n1/n2", "dd/w/new7/new8", "d/n1/n2",
+	"ld/n1/evil", "ld/n1/n2/evil", "ld/n1/n2/n3/evil", "ld/n1/n2/n3/victim", "ld/logs/evil.txt", "dd/out2/evil", "dd/out2/t",
+	"in/../ld/n1/evil", "e/x", "ld/n1", "ld/n1/n2/n3"}
 
 var c17Targets = []string{c17Outside + "/target", c17Outside + "/dir", c17Outside + "/newfile", c17Outside + "/dir/newfile",
 	"../sib", "../new7", "../../outside/target", "../../outside/dir", "../../outside/new8", "d", "a", ".", "..", "", c17Out, c17Out + "/d", "x", "loop",
@@ -221,6 +223,11 @@ func c17Skeleton() VL {
 		fsDir(), fsDir("q"), fsDir("q", "p"), fsDir("q", "p", "w"),
 		fsDir("q", "p", "outside"), fsFileM(0o600, "SENTINEL", "q", "p", "outside", "target"),
 		fsDirM(0o700, "q", "p", "outside", "dir"), fsFileM(0o640, "KEEP", "q", "p", "outside", "dir", "keep"),
+		// real sub-directories of the outside victim directory, for entry names with separators whose
+		// first component is a symlink to it (depths 1..3)
+		fsDir("q", "p", "outside", "dir", "n1"), fsDir("q", "p", "outside", "dir", "n1", "n2"),
+		fsDir("q", "p", "outside", "dir", "n1", "n2", "n3"), fsFile("DEEP", "q", "p", "outside", "dir", "n1", "n2", "n3", "victim"),
+		fsDir("q", "p", "outside", "dir", "logs"),
 		fsFile("sibling", "q", "p", "w", "sib"), fsFile("plain", "q", "p", "w", "afile"),
 		fsLink("out", "q", "p", "w", "lnk"), fsLink(c17Out, "q", "p", "w", "alnk"),
 		// a sibling whose path has the output directory's path as a string prefix
@@ -466,6 +473,13 @@ func init() {
 			{"empty-name-symlink-entry-then-second-root", with(), VL{rootN(dirV(0, dent{nil, linkV("../../outside/dir"), false})), rootN(dirV(0, de("keep", f1("PWNED"))))}, 0},
 			{"name-with-separators-below-symlink-entry", with(), VL{rootN(dirV(0, de("a", linkV(c17Outside+"/dir")), de("a/b/c", f1("PWNED")), de("after", f1("A"))))}, 0},
 			{"name-with-separators-below-prepopulated-symlink", with(fsLink(c17Outside+"/dir", outp("ld")...)), VL{rootN(dirV(0, de("ld/n1/n2", missV([]byte("n"))), de("ld/n3/n4/n5", dirV(0))))}, 1},
+			{"separators-below-symlink-entry-existing-subdir-1", with(), VL{rootN(dirV(0, de("cache", linkV(c17Outside+"/dir")), de("cache/logs/evil.txt", f1("PWNED")), de("after", f1("A"))))}, 0},
+			{"separators-below-symlink-entry-existing-subdir-2", with(), VL{rootN(dirV(0, de("a", linkV(c17Outside+"/dir")), de("a/n1/n2/evil", f1("PWNED")), de("a/n1/n2/n3/victim", f1("PWNED"))))}, 0},
+			{"separators-below-symlink-entry-existing-subdir-3", with(), VL{rootN(dirV(1, de("a", linkV("../../outside/dir")), de("a/n1/n2/n3/evil", linkV("/etc")), de("a/n1/n2/n3/newdir", dirV(0, de("f", f1("PWNED"))))))}, 0},
+			{"separators-below-prepopulated-symlink-existing-subdir", with(fsLink(c17Outside+"/dir", outp("ld")...)), VL{rootN(dirV(0, de("ld/n1/evil", f1("PWNED")), de("ld/n1/n2/evil", f1("PWNED"))))}, 1},
+			{"separators-below-prepopulated-symlink-existing-subdir-deep", with(fsLink(c17Outside+"/dir", outp("ld")...)), VL{rootN(dirV(0, de("ld/n1/n2/n3/evil", f1("PWNED"))))}, 1},
+			{"separators-below-symlink-from-earlier-root", with(), VL{rootN(dirV(0, de("a", linkV(c17Outside+"/dir")))), rootN(dirV(0, de("a/logs/evil.txt", f1("PWNED")), de("a/n1/x", dirV(0))))}, 0},
+			{"separators-below-dotdot-symlink-existing-sibling", with(), VL{rootN(dirV(0, de("up", linkV("..")), de("up/out2/evil", f1("PWNED")), de("up/out2/t", f1("PWNED"))))}, 0},
 			{"symlink-chain-then-file", with(), VL{rootN(dirV(0, de("y", linkV(tgt)), de("x", linkV("y")), de("x", f1("PWNED"))))}, 0},
 			{"missing-blocks", with(), VL{rootN(dirV(0, de("a", missV([]byte("1"))), de("b", f1("B")), de("c", fileErrV([]byte("0123456789"), 3, 2, 1))))}, 0},
 			{"missing-root", with(), VL{rootN(dirV(0, de("a", f1("A")))), rootN(missV([]byte("2")))}, 0},
